@@ -11,6 +11,7 @@ from pyvc.values import SArr, SCell, SClassRef, SExc, SNative, SObj, SOpaque, SS
 from .collections import (CLASSES, DM, EM, TR, I, Rl, B, frame_old_records, layout_of, rec_fields_equal, snapshot, sym_em, sym_heap_droplet,
                           sym_real_list, sym_track, touch_layout)
 from .emulsions import EmView
+from . import droplets as _dr      # noqa: F401  (assumed model of Cuboid.from_points, droplet accessors)
 
 
 class _Sums:
@@ -859,3 +860,86 @@ class TrackTrajectory(Contract):
             out.append(("without smoothing (the default, or 0) no filter is applied", not self.calls))
         out.append(("the droplets of the track are not modified", frame_old_records(run, arrs0, lay)))
         return out
+
+
+# ---------------------------------------------------------------------------------------------------
+@register
+class GetitemCall(Contract):
+    """Emulsion.__getitem__ at the call sites inside Emulsion.bbox (its own contract: EmulsionGetitem): an integer key gives the member itself, the
+    slice [1:] an emulsion of (copies of) the members 1, 2, ... in order - value-equal droplets, which is all a bounding box depends on"""
+    key = f"{EM}:Emulsion.__getitem__"
+    variant = "bbox-call"
+    call_site = True
+
+    def cases(self):
+        return []
+
+    def apply(self, engine, run, fi, args, kwargs):
+        g = run.ghost.get("bbox")
+        if g is None or args[0] is not g["em"]:
+            return NotImplemented
+        me, key = args[0], args[1]
+        run.trust(f"contract:{self.key} (verified separately): integer key -> the member; slice -> value-equal copies of the sliced members, in order")
+        if isinstance(key, slice):
+            g["slices"].append(key)
+            return me.raw_getitem(run, key)
+        return me.raw_getitem(run, key)
+
+
+@register
+class EmulsionBBox(Contract):
+    """Emulsion.bbox: the union (Cuboid `+`, py-pde) of the members' bounding boxes [position - radius, position + radius], folded from member 0 over
+    members 1, 2, ...; an empty emulsion raises RuntimeError"""
+    key = f"{EM}:Emulsion.bbox"
+    modular = False
+    prefer_variants = {f"{EM}:Emulsion.__getitem__": "bbox-call"}
+
+    def cases(self):
+        return [dict(cls="SphericalDroplet", dim=d, empty=False) for d in (1, 2, 3)] + [dict(cls="SphericalDroplet", dim=2, empty=True)]
+
+    def setup(self, run, case):
+        lay = layout_of(case["cls"], case["dim"])
+        touch_layout(run, lay)
+        em = sym_em(run, "self", case["dim"], case["cls"])
+        run.assume(to_z3(em.length) == 0 if case["empty"] else to_z3(em.length) >= 1)
+        view = EmView(run, case["dim"], case["cls"], em.elems)
+        run.ghost["sums"] = _Sums(run)
+        run.ghost["bbox"] = dict(em=em, slices=[])
+        self.ctx = (run, em, view, snapshot(run), lay)
+        return dict(self=em)
+
+    def call(self, engine, run, fi, a, case):
+        return engine.call_function(run, fi, [a["self"]], {})
+
+    def raises(self, a, exc, case):
+        if case["empty"]:
+            return [("the bounding box of an empty emulsion is undefined: RuntimeError", exc.cls_name == "RuntimeError")]
+        return [(f"no exception escapes (raised {exc.cls_name})", False)]
+
+    def _is_box_of(self, box, view, k, dim):
+        if not (isinstance(box, SOpaque) and box.tag == "Cuboid"):
+            return False
+        p1, p2 = box.attrs["p1"], box.attrs["p2"]
+        if not (isinstance(p1, SArr) and isinstance(p2, SArr) and len(p1) == dim == len(p2)):
+            return False
+        r = view.radius(k)
+        return z3.And(*[z3.And(to_real(p1.elems[j]) == view.pos(k)[j] - r, to_real(p2.elems[j]) == view.pos(k)[j] + r) for j in range(dim)])
+
+    def post(self, a, ret, case):
+        run, em, view, arrs0, lay = self.ctx
+        if case["empty"]:
+            return [("the bounding box of an empty emulsion is undefined: RuntimeError", False)]
+        calls = run.ghost["sums"].calls
+        if len(calls) != 1:
+            return [("the bounding box is one fold (sum with `+` = union of cuboids) over the members", False)]
+        seq, start, tot = calls[0]
+        k = z3.Int("sk_member")
+        n = to_z3(em.length)
+        dim = case["dim"]
+        b0 = self._is_box_of(start, view, z3.IntVal(0), dim)
+        bk = self._is_box_of(seq.at(k), view, k + 1, dim)
+        return [("the fold starts from the box of member 0: [position - radius, position + radius]", b0),
+                ("it runs over all remaining members, in order: summand k is the box of member k + 1",
+                 z3.And(to_z3(seq.length) == n - 1, z3.Implies(z3.And(k >= 0, k < n - 1), bk)) if bk is not False else False),
+                ("the fold is what is returned", ret is tot),
+                ("no droplet is modified", frame_old_records(run, arrs0, lay))]
